@@ -44,6 +44,17 @@ def multitask(x1, x2, lengthscale, task_root):
     return out.reshape(*k.shape[:-2], k.shape[-2] * 2, k.shape[-1] * 2)
 
 
+def multitask_op(x1, x2, lengthscale, task_covar):
+    """multitask() with the task covariance handed over as a LinearOperator-valued hyperparameter (keyword sub-operator)"""
+    x1 = x1.div(lengthscale)
+    x2 = x2.div(lengthscale)
+    sq_dist = (x1.unsqueeze(-2) - x2.unsqueeze(-3)).square().sum(dim=-1)
+    k = sq_dist.div(-2.0).exp()
+    b = task_covar.to_dense() if hasattr(task_covar, "to_dense") else task_covar
+    out = k.unsqueeze(-1).unsqueeze(-3) * b.unsqueeze(-2).unsqueeze(-4)  # (..., M,2,N,2)
+    return out.reshape(*k.shape[:-2], k.shape[-2] * 2, k.shape[-1] * 2)
+
+
 def rbf_fixed(x1, x2, diag=False, **params):
     """Closure-free, parameter-free RBF in the calling convention of the deprecated KeOps wrapper
     (covar_func(x1, x2, diag=False, **params)); with diag=True the rows of x1 and x2 are paired."""
